@@ -85,6 +85,35 @@ pub fn render_text(parser: &liquid::Parser, text: &str, data: &Object) -> Obs {
     }
 }
 
+/// Render an already parsed template (the SAME `Template` object may be rendered many times).
+pub fn render_parsed(t: &Result<liquid::Template, String>, data: &Object) -> Obs {
+    let r = catch_unwind(AssertUnwindSafe(|| {
+        let t = match t {
+            Ok(t) => t,
+            Err(e) => return Obs::ParseErr(e.clone()),
+        };
+        let mut buf = Vec::new();
+        match t.render_to(&mut buf, data) {
+            Ok(()) => match String::from_utf8(buf) {
+                Ok(s) => Obs::Ok(s),
+                Err(e) => Obs::BadUtf8(e.into_bytes()),
+            },
+            Err(e) => Obs::Err(e.to_string()),
+        }
+    }));
+    match r {
+        Ok(o) => o,
+        Err(e) => Obs::Panic(panic_msg(e)),
+    }
+}
+
+pub fn parse_once(parser: &liquid::Parser, text: &str) -> Result<liquid::Template, String> {
+    match catch_unwind(AssertUnwindSafe(|| parser.parse(text).map_err(|e| e.to_string()))) {
+        Ok(r) => r,
+        Err(e) => Err(format!("PANIC {}", panic_msg(e))),
+    }
+}
+
 pub fn partial_tokens(partials: &[PartialDef]) -> String {
     let mut o = vec![partials.len().to_string()];
     for (name, p) in partials {
